@@ -600,12 +600,17 @@ func TestVerifC16(t *testing.T) {
 	c16Suite(t, env, res, "", false)
 	c16Suite(t, env, res, "/schema-cache", true)
 	c16Suite(t, env, res, "/retry-round-with-input-responses", false)
+	c16Suite(t, env, res, "/server-driven-retry", false)
 	c16BigInts(t, env, res)
 	env.Finish(res)
 }
 
 func c16Suite(t *testing.T, env *verifx.Env, res *verifx.Result, suffix string, withCache bool) {
 	retryRound := strings.Contains(suffix, "retry-round")
+	// serverRetry: the session speaks a legacy protocol and the tool answers its first invocation with an
+	// input request; the server's middleware asks the client itself and invokes the tool again - with the
+	// same arguments, validated the same way (the handler counts, and is judged by, the final invocation)
+	serverRetry := strings.Contains(suffix, "server-driven-retry")
 	ctx := context.Background()
 
 	// ---------- inputs
@@ -628,6 +633,9 @@ func c16Suite(t *testing.T, env *verifx.Env, res *verifx.Result, suffix string, 
 	schemas := c16InputSchemas()
 	for _, sc := range schemas {
 		AddTool(s, &Tool{Name: sc.name, InputSchema: sc.schema}, func(ctx context.Context, r *CallToolRequest, v c16In) (*CallToolResult, any, error) {
+			if serverRetry && len(r.Params.InputResponses) == 0 {
+				return &CallToolResult{InputRequests: InputRequestMap{"q": &ElicitParams{Message: "go on?"}}}, nil, nil
+			}
 			handlerRuns++
 			seen = &v
 			return &CallToolResult{}, nil, nil
@@ -656,7 +664,10 @@ func c16Suite(t *testing.T, env *verifx.Env, res *verifx.Result, suffix string, 
 		t.Fatal(err)
 	}
 	defer ss.Close()
-	c := NewClient(&Implementation{Name: "cli", Version: "1"}, &ClientOptions{Logger: quietLogger})
+	c := NewClient(&Implementation{Name: "cli", Version: "1"}, &ClientOptions{Logger: quietLogger,
+		ElicitationHandler: func(context.Context, *ElicitRequest) (*ElicitResult, error) {
+			return &ElicitResult{Action: "accept", Content: map[string]any{}}, nil
+		}})
 	cs, err := c.Connect(ctx, ct, &ClientSessionOptions{ProtocolVersion: "2025-06-18"})
 	if err != nil {
 		t.Fatal(err)
